@@ -77,7 +77,7 @@ class C04(Check):
         if defer:
             # rejected operations on A while other buckets hold buffered writes
             weights.update(importer=2.5, editor=1.0, admin=1.5, stale=0.8, watcher=0.3)
-        nsteps = r.choice([3, 6, 10, 20, 40])
+        nsteps = r.choice([3, 6, 10, 20, 40] + ([80, 160] if tier == "thorough" else []))
         steps += actors.schedule(rs["sched"], parties, weights, nsteps)
         return {"backend": backend, "steps": steps, "lat": lat, "defer": defer}
 
